@@ -218,3 +218,1167 @@ Proof.
             c_class := CStaking 10; c_maturity := 4; c_spent := None |}.
   vm_compute. repeat split; reflexivity.
 Qed.
+
+(* ================================================================ the fuel of removeConflict *)
+
+(* Transaction ids are assigned in creation order and a transaction can only spend outputs of
+   transactions that exist already (its id is the hash of its content, which contains the ids it
+   spends): every input refers to a smaller id.  This is the environment assumption E4 in the form
+   the harness realises it; it is what makes the conflict recursion terminate. *)
+Definition tx_ordered (t : tx) : Prop := forall o, In o (t_ins t) -> (fst o < t_id t)%N.
+
+(* every registered spender has a larger id than the transaction whose output it spends *)
+Definition ui_ordered (ui : list (outp * list N)) : Prop :=
+  forall o sp, In sp (ui_get ui o) -> (fst o < sp)%N.
+
+(* number of pending transactions with an id above h *)
+Definition above (h : N) (um : list (N * uval)) : nat := length (filter (fun e => (h <? fst e)%N) um).
+
+Lemma above_le_length : forall h um, (above h um <= length um)%nat.
+Proof.
+  intros h um. unfold above. induction um as [|e um IH]; cbn; [lia|]. destruct (h <? fst e)%N; cbn; lia.
+Qed.
+
+Lemma above_mono : forall h k um, (h <= k)%N -> (above k um <= above h um)%nat.
+Proof.
+  intros h k um Hhk. unfold above. induction um as [|e um IH]; cbn; [lia|].
+  destruct (k <? fst e)%N eqn:E1; destruct (h <? fst e)%N eqn:E2; cbn; try lia.
+  apply N.ltb_lt in E1. apply N.ltb_ge in E2. lia.
+Qed.
+
+Lemma above_lt : forall h sp um v, (h < sp)%N -> um_get um sp = Some v -> (above sp um < above h um)%nat.
+Proof.
+  intros h sp um v Hlt. unfold um_get, above. induction um as [|e um IH]; cbn; [discriminate|].
+  destruct (fst e =? sp)%N eqn:E.
+  - intros _. apply N.eqb_eq in E. rewrite E.
+    assert (E1 : (sp <? sp)%N = false) by (apply N.ltb_ge; lia). rewrite E1.
+    assert (E2 : (h <? sp)%N = true) by (apply N.ltb_lt; lia). rewrite E2. cbn.
+    pose proof (above_mono h sp um ltac:(lia)) as M. unfold above in M. lia.
+  - intros H. specialize (IH H).
+    destruct (sp <? fst e)%N eqn:E1; destruct (h <? fst e)%N eqn:E2; cbn; try lia.
+    apply N.ltb_lt in E1. apply N.ltb_ge in E2. lia.
+Qed.
+
+Lemma above_um_del : forall k um h, (above k (um_del um h) <= above k um)%nat.
+Proof.
+  intros k um h. unfold above, um_del. induction um as [|e um IH]; cbn; [lia|].
+  destruct (negb (fst e =? h)%N); cbn; destruct (k <? fst e)%N; cbn; lia.
+Qed.
+
+(* ---- reading the unmined-inputs bucket after deletions *)
+
+Lemma ui_get_del : forall l o o', ui_get (ui_del l o) o' = if op_eqb o o' then [] else ui_get l o'.
+Proof.
+  intros l o o'. unfold ui_get, ui_del. induction l as [|e l IH]; cbn [filter find].
+  - destruct (op_eqb o o'); reflexivity.
+  - match goal with |- context [negb ?x] => destruct x eqn:E1 end; cbn [negb find].
+    + apply op_eqb_eq in E1.
+      match goal with |- context [if ?x then Some e else _] => destruct x eqn:E2 end.
+      * apply op_eqb_eq in E2. assert (E3 : op_eqb o o' = true) by (apply op_eqb_eq; rewrite <- E1; exact E2).
+        rewrite E3 in *. exact IH.
+      * exact IH.
+    + match goal with |- context [if ?x then Some e else _] => destruct x eqn:E2 end.
+      * apply op_eqb_eq in E2. assert (E3 : op_eqb o o' = false).
+        { destruct (op_eqb o o') eqn:E4; [|reflexivity]. apply op_eqb_eq in E4.
+          exfalso. apply (eq_true_false_abs (op_eqb (fst e) o)); [apply op_eqb_eq; rewrite E4; exact E2|exact E1]. }
+        rewrite E3. reflexivity.
+      * exact IH.
+Qed.
+
+Lemma ui_ordered_del : forall l o, ui_ordered l -> ui_ordered (ui_del l o).
+Proof.
+  intros l o H o' sp Hin. rewrite ui_get_del in Hin. destruct (op_eqb o o'); [destruct Hin|]. exact (H o' sp Hin).
+Qed.
+
+Lemma ui_ordered_del_inputs : forall t l, ui_ordered l -> ui_ordered (del_inputs_of l t).
+Proof.
+  intros t l. unfold del_inputs_of. generalize (t_ins t). intros ins. revert l.
+  induction ins as [|o ins IH]; intros l H; cbn; [exact H|]. apply IH. apply ui_ordered_del. exact H.
+Qed.
+
+Lemma ui_get_append : forall l o h o',
+  ui_get (ui_append l o h) o' = if op_eqb o o' then ui_get l o ++ [h] else ui_get l o'.
+Proof.
+  intros l o h o'. unfold ui_append. unfold ui_get at 1. cbn [find fst snd].
+  destruct (op_eqb o o') eqn:E; [reflexivity|].
+  change (match find (fun e => op_eqb (fst e) o') (ui_del l o) with Some e => snd e | None => [] end) with (ui_get (ui_del l o) o').
+  rewrite ui_get_del, E. reflexivity.
+Qed.
+
+Lemma ui_ordered_append : forall l o h, ui_ordered l -> (fst o < h)%N -> ui_ordered (ui_append l o h).
+Proof.
+  intros l o h H Hlt o' sp Hin. rewrite ui_get_append in Hin. destruct (op_eqb o o') eqn:E.
+  - apply op_eqb_eq in E. subst o'. apply in_app_or in Hin. destruct Hin as [Hin|[<-|[]]]; [exact (H o sp Hin)|exact Hlt].
+  - exact (H o' sp Hin).
+Qed.
+
+(* ---- the invariant carried through the recursion *)
+
+(* [fine s0 r]: r is not the out-of-fuel error, and when it is a state, the unmined-inputs bucket is
+   still ordered and the unmined bucket has only lost entries with respect to s0 *)
+Definition fine (s0 : pstate) (r : pres pstate) : Prop :=
+  match r with
+  | PErr EOutOfFuel => False
+  | PErr _ => True
+  | POk s' => ui_ordered (ps_uinputs s') /\ forall k, (above k (ps_unmined s') <= above k (ps_unmined s0))%nat
+  end.
+
+Lemma fine_trans : forall s0 s1 r,
+  (forall k, (above k (ps_unmined s1) <= above k (ps_unmined s0))%nat) -> fine s1 r -> fine s0 r.
+Proof.
+  intros s0 s1 r H Hr. destruct r as [s'|e]; [|exact Hr]. destruct Hr as [Ho Ha]. split; [exact Ho|].
+  intros k. specialize (H k). specialize (Ha k). lia.
+Qed.
+
+(* one loop over the spenders registered under an outpoint, each removed by [rc] *)
+Lemma fold_spenders_fine :
+  forall (rc : pstate -> N -> tx -> pres pstate) (h : N) (s0 : pstate),
+    (forall s2 sp st, ui_ordered (ps_uinputs s2) ->
+        (forall k, (above k (ps_unmined s2) <= above k (ps_unmined s0))%nat) ->
+        (h < sp)%N -> um_get (ps_unmined s2) sp = Some (USer st) -> fine s2 (rc s2 sp st)) ->
+    forall sps acc, (forall sp, In sp sps -> (h < sp)%N) -> fine s0 acc ->
+      fine s0 (fold_left (fun (acc2 : pres pstate) (sp : N) =>
+                            match acc2 with
+                            | PErr e => PErr e
+                            | POk s2 => match um_get (ps_unmined s2) sp with
+                                        | None => POk s2
+                                        | Some ULoc => PErr EUnreadable
+                                        | Some (USer st) => rc s2 sp st
+                                        end
+                            end) sps acc).
+Proof.
+  intros rc h s0 Hrc sps. induction sps as [|sp sps IH]; intros acc Hsps Hacc; cbn [fold_left]; [exact Hacc|].
+  apply IH; [intros x Hx; apply Hsps; right; exact Hx|].
+  destruct acc as [s2|e]; [|exact Hacc]. destruct Hacc as [Ho Ha].
+  destruct (um_get (ps_unmined s2) sp) as [[st|]|] eqn:E.
+  - eapply fine_trans; [exact Ha|]. apply Hrc; auto. apply Hsps. left. reflexivity.
+  - exact I.
+  - split; assumption.
+Qed.
+
+Lemma remove_conflict_fine :
+  forall fuel own s h t,
+    ui_ordered (ps_uinputs s) -> (above h (ps_unmined s) < fuel)%nat ->
+    fine s (remove_conflict fuel own s h t).
+Proof.
+  induction fuel as [|f IH]; intros own s h t Ho Hf; [lia|].
+  cbn [remove_conflict].
+  set (per_out := fun (acc : pres pstate) (i : N) =>
+        match acc with
+        | PErr e => PErr e
+        | POk s1 =>
+            match fold_left (fun (acc2 : pres pstate) (sp : N) =>
+                               match acc2 with
+                               | PErr e => PErr e
+                               | POk s2 => match um_get (ps_unmined s2) sp with
+                                           | None => POk s2
+                                           | Some ULoc => PErr EUnreadable
+                                           | Some (USer st) => remove_conflict f own s2 sp st
+                                           end
+                               end) (ui_get (ps_uinputs s1) (h, i)) (POk s1) with
+            | PErr e => PErr e
+            | POk s3 => POk (set_ucredits s3 (uc_del (ps_ucredits s3) (h, i)))
+            end
+        end).
+  assert (Hfold : forall idx acc, fine s acc -> fine s (fold_left per_out idx acc)).
+  { induction idx as [|i idx IHi]; intros acc Hacc; cbn [fold_left]; [exact Hacc|].
+    apply IHi. destruct acc as [s1|e]; [|exact Hacc]. destruct Hacc as [Ho1 Ha1]. unfold per_out.
+    assert (Hin : fine s (fold_left (fun (acc2 : pres pstate) (sp : N) =>
+                               match acc2 with
+                               | PErr e => PErr e
+                               | POk s2 => match um_get (ps_unmined s2) sp with
+                                           | None => POk s2
+                                           | Some ULoc => PErr EUnreadable
+                                           | Some (USer st) => remove_conflict f own s2 sp st
+                                           end
+                               end) (ui_get (ps_uinputs s1) (h, i)) (POk s1))).
+    { apply (fold_spenders_fine (fun s2 sp st => remove_conflict f own s2 sp st) h s).
+      - intros s2 sp st Ho2 Ha2 Hlt Hget. apply IH; [exact Ho2|].
+        pose proof (above_lt h sp (ps_unmined s2) _ Hlt Hget) as L. specialize (Ha2 h). lia.
+      - intros sp Hsp. exact (Ho1 (h, i) sp Hsp).
+      - split; assumption. }
+    destruct (fold_left _ (ui_get (ps_uinputs s1) (h, i)) (POk s1)) as [s3|e]; [|exact Hin].
+    destruct Hin as [Ho3 Ha3]. split; [exact Ho3|exact Ha3]. }
+  specialize (Hfold (out_indexes t) (POk s)).
+  assert (H0 : fine s (POk s)) by (split; [exact Ho|intros k; lia]).
+  specialize (Hfold H0).
+  destruct (fold_left per_out (out_indexes t) (POk s)) as [s4|e]; [|exact Hfold].
+  destruct Hfold as [Ho4 Ha4]. split.
+  - cbn. apply ui_ordered_del_inputs. exact Ho4.
+  - intros k. cbn [ps_unmined set_unmined set_ugame set_uinputs]. pose proof (above_um_del k (ps_unmined s4) h). specialize (Ha4 k). lia.
+Qed.
+
+(* the fuel the model passes is enough: the out-of-fuel case is excluded *)
+Theorem remove_conflict_fuel :
+  forall own s h t, ui_ordered (ps_uinputs s) ->
+    remove_conflict (conflict_fuel s) own s h t <> PErr EOutOfFuel.
+Proof.
+  intros own s h t Ho E.
+  pose proof (remove_conflict_fine (conflict_fuel s) own s h t Ho) as F.
+  unfold conflict_fuel in *. pose proof (above_le_length h (ps_unmined s)). rewrite E in F. apply F. lia.
+Qed.
+
+Lemma remove_spenders_fine :
+  forall own s k, ui_ordered (ps_uinputs s) -> fine s (remove_spenders own s k).
+Proof.
+  intros own s k Ho. unfold remove_spenders.
+  apply (fold_spenders_fine (fun s2 sp st => remove_conflict (conflict_fuel s2) own s2 sp st) (fst k) s).
+  - intros s2 sp st Ho2 _ _ _. apply remove_conflict_fine; [exact Ho2|].
+    unfold conflict_fuel. pose proof (above_le_length sp (ps_unmined s2)). lia.
+  - intros sp Hsp. exact (Ho k sp Hsp).
+  - split; [exact Ho|intros x; lia].
+Qed.
+
+Lemma remove_double_spends_fine :
+  forall own s r, ui_ordered (ps_uinputs s) -> fine s (remove_double_spends own s r).
+Proof.
+  intros own s r Ho. unfold remove_double_spends.
+  assert (H : forall ins acc, fine s acc ->
+            fine s (fold_left (fun (acc : pres pstate) (ri : rel_in) =>
+                                 match acc with PErr e => PErr e | POk s1 => remove_spenders own s1 (ri_prev ri) end) ins acc)).
+  { induction ins as [|ri ins IH]; intros acc Hacc; cbn [fold_left]; [exact Hacc|].
+    apply IH. destruct acc as [s1|e]; [|exact Hacc]. destruct Hacc as [Ho1 Ha1].
+    eapply fine_trans; [exact Ha1|]. apply remove_spenders_fine. exact Ho1. }
+  specialize (H (rr_ins r) (POk s) ltac:(split; [exact Ho|intros k; lia])).
+  destruct (fold_left _ (rr_ins r) (POk s)) as [s2|e]; [|exact H].
+  destruct H as [Ho2 Ha2]. split; [|exact Ha2]. cbn. apply ui_ordered_del_inputs. exact Ho2.
+Qed.
+
+Lemma purge_coinbase_fine :
+  forall own ops s, ui_ordered (ps_uinputs s) -> fine s (purge_coinbase own s ops).
+Proof.
+  intros own ops s Ho. unfold purge_coinbase.
+  assert (H : forall ops acc, fine s acc ->
+            fine s (fold_left (fun (acc : pres pstate) (o : outp) =>
+                                 match acc with PErr e => PErr e | POk s1 => remove_spenders own s1 o end) ops acc)).
+  { induction ops0 as [|o ops0 IH]; intros acc Hacc; cbn [fold_left]; [exact Hacc|].
+    apply IH. destruct acc as [s1|e]; [|exact Hacc]. destruct Hacc as [Ho1 Ha1].
+    eapply fine_trans; [exact Ha1|]. apply remove_spenders_fine. exact Ho1. }
+  apply H. split; [exact Ho|intros k; lia].
+Qed.
+
+(* ================================================================ frame: conflict removal only touches the pending side *)
+
+Definition okp (P : pstate -> Prop) (r : pres pstate) : Prop :=
+  match r with POk s' => P s' | PErr _ => True end.
+
+Lemma fold_spenders_pres :
+  forall (P : pstate -> Prop) (rc : pstate -> N -> tx -> pres pstate),
+    (forall s2 sp st, P s2 -> okp P (rc s2 sp st)) ->
+    forall sps acc, okp P acc ->
+      okp P (fold_left (fun (acc2 : pres pstate) (sp : N) =>
+                          match acc2 with
+                          | PErr e => PErr e
+                          | POk s2 => match um_get (ps_unmined s2) sp with
+                                      | None => POk s2
+                                      | Some ULoc => PErr EUnreadable
+                                      | Some (USer st) => rc s2 sp st
+                                      end
+                          end) sps acc).
+Proof.
+  intros P rc Hrc sps. induction sps as [|sp sps IH]; intros acc Hacc; cbn [fold_left]; [exact Hacc|].
+  apply IH. destruct acc as [s2|e]; [|exact I]. cbn in Hacc.
+  destruct (um_get (ps_unmined s2) sp) as [[st|]|]; [apply Hrc; exact Hacc|exact I|exact Hacc].
+Qed.
+
+(* the mined side of a state: everything C01 and the mined deposit history are computed from *)
+Definition same_mined (s0 s' : pstate) : Prop :=
+  ps_w s' = ps_w s0 /\ ps_blocks s' = ps_blocks s0 /\ ps_game s' = ps_game s0.
+
+Lemma same_mined_refl : forall s, same_mined s s.
+Proof. intros s. repeat split. Qed.
+
+Lemma remove_conflict_frame :
+  forall fuel own s0 s h t, same_mined s0 s -> okp (same_mined s0) (remove_conflict fuel own s h t).
+Proof.
+  induction fuel as [|f IH]; intros own s0 s h t Hs; [exact I|].
+  cbn [remove_conflict].
+  match goal with |- okp _ (match fold_left ?po _ _ with _ => _ end) => set (per_out := po) end.
+  assert (Hfold : forall idx acc, okp (same_mined s0) acc -> okp (same_mined s0) (fold_left per_out idx acc)).
+  { induction idx as [|i idx IHi]; intros acc Hacc; cbn [fold_left]; [exact Hacc|].
+    apply IHi. destruct acc as [s1|e]; [|exact I]. unfold per_out.
+    match goal with |- okp _ (match ?F with _ => _ end) => assert (Hin : okp (same_mined s0) F) end.
+    { apply (fold_spenders_pres (same_mined s0) (fun s2 sp st => remove_conflict f own s2 sp st)).
+      - intros s2 sp st H2. apply IH. exact H2.
+      - exact Hacc. }
+    match goal with |- okp _ (match ?F with _ => _ end) => destruct F as [s3|e] end; [|exact I].
+    exact Hin. }
+  specialize (Hfold (out_indexes t) (POk s) Hs).
+  destruct (fold_left per_out (out_indexes t) (POk s)) as [s4|e]; [|exact I].
+  exact Hfold.
+Qed.
+
+Lemma remove_spenders_frame :
+  forall own s0 s k, same_mined s0 s -> okp (same_mined s0) (remove_spenders own s k).
+Proof.
+  intros own s0 s k Hs. unfold remove_spenders.
+  apply (fold_spenders_pres (same_mined s0) (fun s2 sp st => remove_conflict (conflict_fuel s2) own s2 sp st)).
+  - intros s2 sp st H2. apply remove_conflict_frame. exact H2.
+  - exact Hs.
+Qed.
+
+Lemma remove_double_spends_frame :
+  forall own s0 s r, same_mined s0 s -> okp (same_mined s0) (remove_double_spends own s r).
+Proof.
+  intros own s0 s r Hs. unfold remove_double_spends.
+  assert (H : forall ins acc, okp (same_mined s0) acc ->
+            okp (same_mined s0) (fold_left (fun (acc : pres pstate) (ri : rel_in) =>
+                                 match acc with PErr e => PErr e | POk s1 => remove_spenders own s1 (ri_prev ri) end) ins acc)).
+  { induction ins as [|ri ins IH]; intros acc Hacc; cbn [fold_left]; [exact Hacc|].
+    apply IH. destruct acc as [s1|e]; [|exact I]. apply remove_spenders_frame. exact Hacc. }
+  specialize (H (rr_ins r) (POk s) Hs).
+  destruct (fold_left _ (rr_ins r) (POk s)) as [s2|e]; [|exact I]. exact H.
+Qed.
+
+Lemma purge_coinbase_frame :
+  forall own ops s0 s, same_mined s0 s -> okp (same_mined s0) (purge_coinbase own s ops).
+Proof.
+  intros own ops s0 s Hs. unfold purge_coinbase.
+  assert (Hacc0 : okp (same_mined s0) (POk s)) by exact Hs. revert Hacc0.
+  generalize (POk s). induction ops as [|o ops IH]; intros acc Hacc; cbn [fold_left]; [exact Hacc|].
+  apply IH. destruct acc as [s1|e]; [|exact I]. apply remove_spenders_frame. exact Hacc.
+Qed.
+
+(* ================================================================ the ordering invariant along a history *)
+
+Definition blocks_ordered (s : pstate) : Prop :=
+  forall r t, In r (ps_blocks s) -> In t (br_txs r) -> tx_ordered t.
+
+Definition pinv (s : pstate) : Prop := ui_ordered (ps_uinputs s) /\ blocks_ordered s.
+
+Lemma filter_ins_unmined_prev :
+  forall own lk ins i l, filter_ins_unmined own lk ins i = Ok l -> forall ri, In ri l -> In (ri_prev ri) ins.
+Proof.
+  intros own lk ins. induction ins as [|[ph pv] rest IH]; intros i l H ri Hri; cbn in H.
+  - inversion H; subst. destruct Hri.
+  - destruct (lk ph) as [pt|]; [|discriminate].
+    destruct (nth_error (t_outs pt) (N.to_nat pv)) as [o|]; [|discriminate].
+    assert (Hc : forall l', filter_ins_unmined own lk rest (i + 1)%N = Ok l' -> In ri l' -> In (ri_prev ri) ((ph, pv) :: rest)).
+    { intros l' Hl' Hin. right. eapply IH; eauto. }
+    destruct (o_class o); try (eapply Hc; eauto; fail);
+      (destruct (own (o_sh o)) as [w|]; [|eapply Hc; eauto];
+       destruct (filter_ins_unmined own lk rest (i + 1)%N) as [l'|e] eqn:E; [|discriminate];
+       inversion H; subst l; destruct Hri as [<-|Hri]; [left; reflexivity|right; eapply IH; eauto]).
+Qed.
+
+Lemma fold_append_ordered :
+  forall (A : Type) (f : A -> outp) (h : N) (xs : list A) ui,
+    ui_ordered ui -> (forall x, In x xs -> (fst (f x) < h)%N) ->
+    ui_ordered (fold_left (fun ui x => ui_append ui (f x) h) xs ui).
+Proof.
+  intros A f h xs. induction xs as [|x xs IH]; intros ui Ho Hx; cbn [fold_left]; [exact Ho|].
+  apply IH.
+  - apply ui_ordered_append; [exact Ho|]. apply Hx. left. reflexivity.
+  - intros y Hy. apply Hx. right. exact Hy.
+Qed.
+
+Lemma receive_store_pinv :
+  forall p own n s t s', tx_ordered t -> pinv s -> receive_store p own n s t = POk (Some s') -> pinv s'.
+Proof.
+  intros p own n s t s' Ht [Ho Hb] H. unfold receive_store in H.
+  destruct (if t_cb t then Ok [] else filter_ins_unmined own (lookup_pending n (ps_unmined s)) (t_ins t) 0%N) as [ins|e] eqn:Eins; [|discriminate].
+  assert (Hins : forall ri, In ri ins -> (fst (ri_prev ri) < t_id t)%N).
+  { intros ri Hri. destruct (t_cb t).
+    - inversion Eins; subst. destruct Hri.
+    - apply Ht. eapply filter_ins_unmined_prev; eauto. }
+  set (outs := filter_outs own (t_outs t) 0%N) in *.
+  set (s1 := match um_get (ps_unmined s) (t_id t) with
+             | Some _ => s
+             | None => set_uinputs (set_unmined s (um_put (ps_unmined s) (t_id t) (USer t)))
+                         (fold_left (fun ui ri => ui_append ui (ri_prev ri) (t_id t)) ins
+                                    (ps_uinputs (set_unmined s (um_put (ps_unmined s) (t_id t) (USer t)))))
+             end) in *.
+  assert (Hs1 : pinv s1).
+  { subst s1. destruct (um_get (ps_unmined s) (t_id t)); [split; assumption|]. split; [|exact Hb].
+    cbn. apply (fold_append_ordered rel_in ri_prev); assumption. }
+  assert (Hfin : forall x, (if t_cb t then PErr ECoinbaseUnmined
+                 else match outs with
+                      | [] => POk (Some s1)
+                      | _ :: _ => match add_ucredits p (credits (ps_w s1)) (ps_ucredits s1) (t_id t) outs with
+                                  | PErr e => PErr e
+                                  | POk ucs => POk (Some (set_ugame (set_ucredits s1 ucs) (add_ugame (ps_ugame s1) (t_id t) outs)))
+                                  end
+                      end) = POk (Some x) -> pinv x).
+  { intros x Hx. destruct (t_cb t); [discriminate|].
+    destruct outs as [|o outs'].
+    - inversion Hx; subst x. exact Hs1.
+    - destruct (add_ucredits p (credits (ps_w s1)) (ps_ucredits s1) (t_id t) (o :: outs')); [|discriminate].
+      inversion Hx; subst x. exact Hs1. }
+  destruct ins as [|i ins']; destruct outs as [|o outs'] eqn:Eo; try discriminate; apply Hfin; exact H.
+Qed.
+
+Lemma br_add_in :
+  forall l h bid t r t', In r (br_add l h bid t) -> In t' (br_txs r) ->
+    t' = t \/ exists r0, In r0 l /\ In t' (br_txs r0).
+Proof.
+  induction l as [|r0 l IH]; intros h bid t r t' Hr Ht; cbn in Hr.
+  - destruct Hr as [E|[]]. subst r. cbn in Ht. destruct Ht as [E|[]]. left. symmetry. exact E.
+  - destruct (br_height r0 =? h).
+    + destruct Hr as [E|Hr].
+      * subst r. cbn in Ht. apply in_app_or in Ht. destruct Ht as [Ht|[E|[]]].
+        -- right. exists r0. split; [left; reflexivity|exact Ht].
+        -- left. symmetry. exact E.
+      * right. exists r. split; [right; exact Hr|exact Ht].
+    + destruct Hr as [E|Hr].
+      * subst r. right. exists r0. split; [left; reflexivity|exact Ht].
+      * destruct (IH h bid t r t' Hr Ht) as [E|[r1 [H1 H2]]]; [left; exact E|right; exists r1; split; [right; exact H1|exact H2]].
+Qed.
+
+Lemma add_game_frame :
+  forall outs s tid h, ps_uinputs (add_game s tid h outs) = ps_uinputs s /\ ps_blocks (add_game s tid h outs) = ps_blocks s /\
+                       ps_unmined (add_game s tid h outs) = ps_unmined s /\ ps_w (add_game s tid h outs) = ps_w s /\
+                       ps_ucredits (add_game s tid h outs) = ps_ucredits s.
+Proof.
+  induction outs as [|ro outs IH]; intros s tid h; cbn; [repeat split|].
+  destruct (game_kind (o_class (ro_out ro))).
+  - destruct (IH (set_game (set_ugame s (ug_del (ps_ugame s) {| ug_wallet := ro_wallet ro; ug_binding := b; ug_tx := tid; ug_vout := ro_index ro |}))
+                           (g_put (ps_game s) (mk_grow (ro_wallet ro) b false tid h (ro_index ro)))) tid h) as (A & B & C & D & E).
+    unfold add_game in *. rewrite A, B, C, D, E. repeat split.
+  - apply IH.
+Qed.
+
+Lemma settle_frame : forall s t, ps_uinputs (settle s t) = ps_uinputs s /\ ps_blocks (settle s t) = ps_blocks s.
+Proof. intros s t. unfold settle. destruct (um_get (ps_unmined s) (t_id t)); split; reflexivity. Qed.
+
+Lemma withdraw_ins_no_fuel : forall ins cs g t h, withdraw_ins cs g t h ins <> PErr EOutOfFuel.
+Proof.
+  induction ins as [|ri ins IH]; intros cs g t h; cbn; [discriminate|].
+  destruct (find_unspent cs (ri_wallet ri) (ri_prev ri)) as [c|]; [|discriminate].
+  destruct (spend_credit cs (ri_wallet ri) (ri_prev ri) (t_id t, ri_index ri, h)) as [cs'|]; [|discriminate].
+  destruct (game_kind (c_class c)); [|apply IH].
+  destruct (g_mem _ g); [apply IH|discriminate].
+Qed.
+
+(* AddRelevantTx for a mined record: never out of fuel, and the ordering invariant is kept *)
+Lemma p_apply_rec_pinv :
+  forall p own h bid s r, tx_ordered (rr_tx r) -> pinv s ->
+    match p_apply_rec p own h bid s r with
+    | PErr EOutOfFuel => False
+    | PErr _ => True
+    | POk s' => pinv s'
+    end.
+Proof.
+  intros p own h bid s r Ht [Ho Hb]. unfold p_apply_rec.
+  set (s0 := set_blocks s (br_add (ps_blocks s) h bid (rr_tx r))).
+  assert (Hb0 : blocks_ordered s0).
+  { intros r0 t0 Hr0 Ht0. cbn in Hr0. destruct (br_add_in _ _ _ _ _ _ Hr0 Ht0) as [->|[r1 [H1 H2]]]; [exact Ht|exact (Hb r1 t0 H1 H2)]. }
+  pose proof (withdraw_ins_no_fuel (rr_ins r) (credits (ps_w s0)) (ps_game s0) (rr_tx r) h) as Hwf.
+  destruct (withdraw_ins (credits (ps_w s0)) (ps_game s0) (rr_tx r) h (rr_ins r)) as [[cs1 g1]|e]; [|destruct e; try exact I; congruence].
+  set (s1 := settle (set_game (set_credits s0 cs1) g1) (rr_tx r)).
+  assert (Ho1 : ui_ordered (ps_uinputs s1)).
+  { subst s1. destruct (settle_frame (set_game (set_credits s0 cs1) g1) (rr_tx r)) as [A _]. rewrite A. exact Ho. }
+  assert (Hb1 : ps_blocks s1 = ps_blocks s0).
+  { subst s1. destruct (settle_frame (set_game (set_credits s0 cs1) g1) (rr_tx r)) as [_ B]. rewrite B. reflexivity. }
+  pose proof (remove_double_spends_fine own s1 r Ho1) as F.
+  pose proof (remove_double_spends_frame own s1 s1 r (same_mined_refl s1)) as Fr.
+  destruct (remove_double_spends own s1 r) as [s2|e]; [|destruct e; try exact I; exact F].
+  destruct F as [Ho2 _]. destruct Fr as (_ & Hb2 & _).
+  destruct (apply_outs p (credits (ps_w s2)) (rr_tx r) h bid (rr_outs r)) as [cs2|e]; [|exact I].
+  destruct (add_game_frame (rr_outs r) (set_credits s2 cs2) (t_id (rr_tx r)) h) as (A & B & _).
+  split.
+  - unfold pinv, ui_ordered in *. rewrite A. exact Ho2.
+  - intros r0 t0 Hr0 Ht0. rewrite B in Hr0. cbn in Hr0. rewrite Hb2, Hb1 in Hr0. exact (Hb0 r0 t0 Hr0 Ht0).
+Qed.
+
+Lemma p_apply_recs_pinv :
+  forall p own h bid recs s, (forall r, In r recs -> tx_ordered (rr_tx r)) -> pinv s ->
+    match p_apply_recs p own h bid s recs with
+    | PErr EOutOfFuel => False
+    | PErr _ => True
+    | POk s' => pinv s'
+    end.
+Proof.
+  intros p own h bid recs. induction recs as [|r recs IH]; intros s Hr Hs; cbn [p_apply_recs]; [exact Hs|].
+  pose proof (p_apply_rec_pinv p own h bid s r (Hr r (or_introl eq_refl)) Hs) as H1.
+  destruct (p_apply_rec p own h bid s r) as [s'|e]; [|exact H1].
+  apply IH; [intros r0 H0; apply Hr; right; exact H0|exact H1].
+Qed.
+
+(* the relevant records of a block are records of its transactions *)
+Lemma filter_block_txs_in :
+  forall own view lk txs seen recs, filter_block_txs own view lk seen txs = Ok recs ->
+    forall r, In r recs -> In (rr_tx r) txs.
+Proof.
+  intros own view lk txs. induction txs as [|t txs IH]; intros seen recs H r Hr; cbn in H.
+  - inversion H; subst. destruct Hr.
+  - destruct (filter_tx own view (seen ++ [t]) lk t) as [ot|e] eqn:Et; [|discriminate].
+    destruct (filter_block_txs own view lk (seen ++ [t]) txs) as [l|e] eqn:El; [|discriminate].
+    inversion H; subst recs. destruct ot as [rr|].
+    + destruct Hr as [<-|Hr]; [|right; eapply IH; eauto].
+      left. unfold filter_tx in Et.
+      destruct (if t_cb t then Ok [] else filter_ins own view (seen ++ [t]) lk (t_ins t) 0%N) as [ins|e]; [|discriminate].
+      destruct ins; destruct (filter_outs own (t_outs t) 0%N); inversion Et; reflexivity.
+    + right. eapply IH; eauto.
+Qed.
+
+Definition block_ordered (b : block) : Prop := forall t, In t (b_txs b) -> tx_ordered t.
+
+Lemma p_connect_block_pinv :
+  forall p own n cum s b, block_ordered b -> pinv s ->
+    match p_connect_block p own n cum s b with
+    | PErr EOutOfFuel => False
+    | PErr _ => True
+    | POk (s', _) => pinv s'
+    end.
+Proof.
+  intros p own n cum s b Hb Hs. unfold p_connect_block.
+  destruct (filter_block_txs own (credits (ps_w s)) (lookup_pending n cum) [] (b_txs b)) as [recs|e] eqn:E; [|exact I].
+  pose proof (p_apply_recs_pinv p own (b_height b) (b_id b) recs s) as H.
+  specialize (H ltac:(intros r Hr; apply Hb; eapply filter_block_txs_in; eauto) Hs).
+  destruct (p_apply_recs p own (b_height b) (b_id b) s recs) as [s'|e]; [|exact H].
+  exact H.
+Qed.
+
+Lemma p_connect_all_pinv :
+  forall p own n cum bs s, (forall b, In b bs -> block_ordered b) -> pinv s ->
+    match p_connect_all p own n cum s bs with
+    | PErr EOutOfFuel => False
+    | PErr _ => True
+    | POk (s', _) => pinv s'
+    end.
+Proof.
+  intros p own n cum bs. induction bs as [|b bs IH]; intros s Hb Hs; cbn [p_connect_all]; [exact Hs|].
+  destruct (node_at n (b_height b)) as [nb|]; [|exact I].
+  destruct (negb (b_id nb =? b_id b)%N); [exact I|].
+  pose proof (p_connect_block_pinv p own n cum s b (Hb b (or_introl eq_refl)) Hs) as H1.
+  destruct (p_connect_block p own n cum s b) as [[s' ids]|e]; [|exact H1].
+  specialize (IH s' ltac:(intros b0 H0; apply Hb; right; exact H0) H1).
+  destruct (p_connect_all p own n cum s' bs) as [[s'' added]|e]; [|exact IH]. exact IH.
+Qed.
+
+(* ---- rollback *)
+
+Definition okf {A : Type} (P : A -> Prop) (r : pres A) : Prop :=
+  match r with PErr EOutOfFuel => False | PErr _ => True | POk a => P a end.
+
+Lemma unwithdraw_ins_no_fuel : forall idx cs g tid h, unwithdraw_ins cs g tid h idx <> PErr EOutOfFuel.
+Proof.
+  induction idx as [|i idx IH]; intros cs g tid h; cbn; [discriminate|].
+  destruct (debit_of cs tid i h) as [c|]; [|apply IH].
+  destruct (game_kind (c_class c)); [|apply IH].
+  destruct (g_mem _ g); [apply IH|discriminate].
+Qed.
+
+Lemma rollback_credit_fold_frame :
+  forall (h : Z) mine s,
+    let s' := fold_left (fun acc c =>
+                let a1 := set_ucredits acc (uc_put (ps_ucredits acc)
+                            {| uc_op := credit_op c; uc_amount := c_amount c; uc_sh := c_sh c;
+                               uc_class := c_class c; uc_maturity := c_maturity c |}) in
+                match game_kind (c_class c) with
+                | Some b =>
+                    set_ugame (set_game a1 (g_del (ps_game a1) (mk_grow (c_wallet c) b false (c_tx c) h (c_vout c))))
+                              (ug_put (ps_ugame a1) {| ug_wallet := c_wallet c; ug_binding := b; ug_tx := c_tx c; ug_vout := c_vout c |})
+                | None => a1
+                end) mine s in
+    ps_uinputs s' = ps_uinputs s /\ ps_blocks s' = ps_blocks s /\ ps_unmined s' = ps_unmined s /\ ps_w s' = ps_w s.
+Proof.
+  intros h mine. induction mine as [|c mine IH]; intros s; cbn [fold_left]; [repeat split|].
+  cbv zeta in IH.
+  match goal with |- context [fold_left ?f mine ?a] => destruct (IH a) as (A & B & C & D) end.
+  cbv zeta. rewrite A, B, C, D. destruct (game_kind (c_class c)); repeat split.
+Qed.
+
+Lemma rollback_tx_pinv :
+  forall a3fix cs h bid t acc,
+    tx_ordered t -> okf (fun x => pinv (fst x)) acc ->
+    okf (fun x => pinv (fst x)) (rollback_tx a3fix cs h bid acc t).
+Proof.
+  intros a3fix cs h bid t acc Ht Hacc. unfold rollback_tx.
+  destruct acc as [[s cbops]|e]; [|exact Hacc]. cbn [okf fst] in Hacc.
+  destruct (t_cb t); [exact Hacc|].
+  set (s2 := set_uinputs (set_unmined s (um_put (ps_unmined s) (t_id t) (pending_value_of_rolled_back a3fix t)))
+               (fold_left (fun ui o => ui_append ui o (t_id t)) (t_ins t)
+                          (ps_uinputs (set_unmined s (um_put (ps_unmined s) (t_id t) (pending_value_of_rolled_back a3fix t)))))).
+  pose proof (unwithdraw_ins_no_fuel (map N.of_nat (seq 0 (length (t_ins t)))) cs (ps_game s2) (t_id t) h) as Hnf.
+  destruct (unwithdraw_ins cs (ps_game s2) (t_id t) h (map N.of_nat (seq 0 (length (t_ins t))))) as [g|e];
+    [|destruct e; try exact I; congruence].
+  cbn [okf fst].
+  destruct (rollback_credit_fold_frame h (credits_at cs (t_id t) h bid) (set_game s2 g)) as (A & B & _).
+  destruct Hacc as [Ho Hb]. split.
+  - unfold ui_ordered in *. cbv zeta in A. rewrite A. cbn.
+    apply (fold_append_ordered outp (fun o => o)); [exact Ho|exact Ht].
+  - intros r0 t0 Hr0 Ht0. cbv zeta in B. rewrite B in Hr0. cbn in Hr0. exact (Hb r0 t0 Hr0 Ht0).
+Qed.
+
+Lemma rollback_move_pinv :
+  forall a3fix cs s r, pinv s -> (forall t, In t (br_txs r) -> tx_ordered t) ->
+    okf (fun x => pinv (fst x)) (rollback_move a3fix cs s r).
+Proof.
+  intros a3fix cs s r Hs Hr. unfold rollback_move.
+  assert (H : forall txs acc, (forall t, In t txs -> tx_ordered t) -> okf (fun x => pinv (fst x)) acc ->
+              okf (fun x => pinv (fst x)) (fold_left (rollback_tx a3fix cs (br_height r) (br_bid r)) txs acc)).
+  { induction txs as [|t txs IH]; intros acc Ht Hacc; cbn [fold_left]; [exact Hacc|].
+    apply IH; [intros t0 H0; apply Ht; right; exact H0|].
+    apply rollback_tx_pinv; [apply Ht; left; reflexivity|exact Hacc]. }
+  apply H; [intros t Ht; apply Hr; apply in_rev; exact Ht|exact Hs].
+Qed.
+
+Lemma p_rollback_one_pinv :
+  forall a3fix own cs s h, pinv s -> okf pinv (p_rollback_one a3fix own cs s h).
+Proof.
+  intros a3fix own cs s h Hs. unfold p_rollback_one.
+  destruct (find (fun r => br_height r =? h) (ps_blocks s)) as [r|] eqn:E; [|exact Hs].
+  apply find_some in E. destruct E as [Hr _].
+  pose proof (rollback_move_pinv a3fix cs s r Hs (fun t Ht => proj2 Hs r t Hr Ht)) as H.
+  destruct (rollback_move a3fix cs s r) as [[s1 cbops]|e]; [|exact H]. cbn [okf fst] in H.
+  set (s1' := set_blocks s1 (filter (fun x => negb (br_height x =? h)) (ps_blocks s1))).
+  assert (H1 : pinv s1').
+  { destruct H as [Ho Hb]. split; [exact Ho|]. intros r0 t0 Hr0 Ht0. cbn in Hr0. apply filter_In in Hr0.
+    exact (Hb r0 t0 (proj1 Hr0) Ht0). }
+  pose proof (purge_coinbase_fine own cbops s1' (proj1 H1)) as F.
+  pose proof (purge_coinbase_frame own cbops s1' s1' (same_mined_refl s1')) as Fr.
+  destruct (purge_coinbase own s1' cbops) as [s2|e]; [|destruct e; try exact I; exact F].
+  destruct F as [Ho2 _]. destruct Fr as (_ & Hb2 & _). split; [exact Ho2|].
+  intros r0 t0 Hr0 Ht0. rewrite Hb2 in Hr0. exact (proj2 H1 r0 t0 Hr0 Ht0).
+Qed.
+
+Lemma p_rollback_to_pinv :
+  forall a3fix own s h, pinv s -> okf pinv (p_rollback_to a3fix own s h).
+Proof.
+  intros a3fix own s h Hs. unfold p_rollback_to.
+  assert (H : forall ks acc, okf pinv acc ->
+              okf pinv (fold_left (fun (acc : pres pstate) (k : Z) =>
+                                     match acc with PErr e => PErr e | POk s1 => p_rollback_one a3fix own (credits (ps_w s)) s1 k end) ks acc)).
+  { induction ks as [|k ks IH]; intros acc Hacc; cbn [fold_left]; [exact Hacc|].
+    apply IH. destruct acc as [s1|e]; [|exact Hacc]. apply p_rollback_one_pinv. exact Hacc. }
+  specialize (H (heights_down (fst (tip (ps_w s))) h) (POk s) Hs).
+  destruct (fold_left _ (heights_down (fst (tip (ps_w s))) h) (POk s)) as [s'|e]; [|exact H].
+  exact H.
+Qed.
+
+Lemma collect_in :
+  forall n st fuel b acc fork bs, collect n st fuel b acc = Some (fork, bs) ->
+    forall x, In x bs -> In x acc \/ x = b \/ In x n.
+Proof.
+  intros n st fuel. induction fuel as [|f IH]; intros b acc fork bs H x Hx; cbn in H; [discriminate|].
+  destruct (match synced_at st (b_height b) with Some bid => (bid =? b_id b)%N | None => false end).
+  - inversion H; subst. left. exact Hx.
+  - destruct (node_block n (b_prev b)) as [pb|] eqn:E; [|discriminate].
+    destruct (IH pb (b :: acc) fork bs H x Hx) as [[->|Hin]|[->|Hin]].
+    + right. left. reflexivity.
+    + left. exact Hin.
+    + right. right. unfold node_block in E. apply find_some in E. exact (proj1 E).
+    + right. right. exact Hin.
+Qed.
+
+(* processConnectedBlock never runs out of fuel and keeps the invariant *)
+Theorem pprocess_pinv :
+  forall p a3fix own n hs b,
+    pinv (h_store hs) -> (forall b0, In b0 (b :: n) -> block_ordered b0) ->
+    okf (fun hs' => pinv (h_store hs')) (pprocess p a3fix own n hs b).
+Proof.
+  intros p a3fix own n hs b Hs Hb. unfold pprocess.
+  destruct (snd (tip (ps_w (h_store hs))) =? b_prev b)%N.
+  - pose proof (p_connect_all_pinv p own n (ps_unmined (h_store hs)) [b] (h_store hs)) as H.
+    specialize (H ltac:(intros b0 [<-|[]]; apply Hb; left; reflexivity) Hs).
+    destruct (p_connect_all p own n (ps_unmined (h_store hs)) (h_store hs) [b]) as [[s' added]|e]; [|exact H]. exact H.
+  - destruct (collect n (ps_w (h_store hs)) (S (Z.to_nat (b_height b))) b []) as [[fork bs]|] eqn:Ec; [|exact I].
+    pose proof (p_rollback_to_pinv a3fix own (h_store hs) (fork + 1) Hs) as H1.
+    destruct (p_rollback_to a3fix own (h_store hs) (fork + 1)) as [s1|e]; [|exact H1].
+    pose proof (p_connect_all_pinv p own n (ps_unmined (h_store hs)) bs s1) as H.
+    assert (Hbs : forall b0, In b0 bs -> block_ordered b0).
+    { intros b0 H0. destruct (collect_in _ _ _ _ _ _ _ Ec b0 H0) as [[]|[->|Hin]]; apply Hb; [left; reflexivity|right; exact Hin]. }
+    specialize (H Hbs H1).
+    destruct (p_connect_all p own n (ps_unmined (h_store hs)) s1 bs) as [[s' added]|e]; [|exact H]. exact H.
+Qed.
+
+(* histories in which every transaction spends outputs of earlier transactions only *)
+Definition event_ordered (e : pevent) : Prop :=
+  match e with
+  | PvAttach b => block_ordered b
+  | PvProcess b => block_ordered b
+  | PvReceive t => tx_ordered t
+  | _ => True
+  end.
+
+Definition node_ordered (n : node) : Prop := forall b, In b n -> block_ordered b.
+
+Lemma removelast_in : forall (A : Type) (l : list A) x, In x (removelast l) -> In x l.
+Proof.
+  intros A l. induction l as [|a l IH]; intros x H; cbn in H; [destruct H|].
+  destruct l as [|b l]; [destruct H|]. destruct H as [<-|H]; [left; reflexivity|right; apply IH; exact H].
+Qed.
+
+Lemma pstep_pinv :
+  forall p a3fix s e, event_ordered e ->
+    node_ordered (q_node s) /\ pinv (h_store (q_h s)) ->
+    node_ordered (q_node (pstep p a3fix s e)) /\ pinv (h_store (q_h (pstep p a3fix s e))).
+Proof.
+  intros p a3fix s e He [Hn Hs]. destruct e; cbn [pstep q_node q_h]; try (split; assumption).
+  - split; [|exact Hs]. intros b0 H0. apply in_app_or in H0. destruct H0 as [H0|[<-|[]]]; [exact (Hn b0 H0)|exact He].
+  - split; [|exact Hs]. intros b0 H0. apply Hn. apply removelast_in. exact H0.
+  - split; [exact Hn|]. unfold pprocess_or_keep.
+    pose proof (pprocess_pinv p a3fix (own_of (q_own s)) (q_node s) (q_h s) b Hs) as H.
+    specialize (H ltac:(intros b0 [<-|H0]; [exact He|exact (Hn b0 H0)])).
+    destruct (pprocess p a3fix (own_of (q_own s)) (q_node s) (q_h s) b); [exact H|exact Hs].
+  - split; [exact Hn|]. unfold receive_tx. destruct (mem_n (t_id t) (h_mempool (q_h s))); [exact Hs|].
+    destruct (receive_store p (own_of (q_own s)) (q_node s) (h_store (q_h s)) t) as [[s'|]|e] eqn:E; cbn; try exact Hs.
+    eapply receive_store_pinv; eauto.
+Qed.
+
+Theorem prun_pinv :
+  forall p a3fix g evs, block_ordered g -> Forall event_ordered evs ->
+    let s := prun p a3fix g evs in
+    node_ordered (q_node s) /\ pinv (h_store (q_h s)).
+Proof.
+  intros p a3fix g evs Hg Hev. cbv zeta. unfold prun.
+  assert (H0 : node_ordered (q_node (init_psim g)) /\ pinv (h_store (q_h (init_psim g)))).
+  { split.
+    - intros b [<-|[]]. exact Hg.
+    - split; [intros o sp []|intros r t []]. }
+  revert H0. generalize (init_psim g). induction Hev as [|e evs He Hev IH]; intros s Hs; cbn [fold_left]; [exact Hs|].
+  apply IH. apply pstep_pinv; assumption.
+Qed.
+
+(* the conflict recursion never runs out of fuel, in any state a history can reach and for any block
+   announced then *)
+Theorem process_never_out_of_fuel :
+  forall p a3fix g evs b, block_ordered g -> Forall event_ordered evs -> block_ordered b ->
+    let s := prun p a3fix g evs in
+    pprocess p a3fix (own_of (q_own s)) (q_node s) (q_h s) b <> PErr EOutOfFuel.
+Proof.
+  intros p a3fix g evs b Hg Hev Hb. cbv zeta.
+  destruct (prun_pinv p a3fix g evs Hg Hev) as [Hn Hs]. intros E.
+  pose proof (pprocess_pinv p a3fix (own_of (q_own (prun p a3fix g evs))) (q_node (prun p a3fix g evs)) (q_h (prun p a3fix g evs)) b Hs) as H.
+  specialize (H ltac:(intros b0 [<-|H0]; [exact Hb|exact (Hn b0 H0)])).
+  rewrite E in H. exact H.
+Qed.
+
+(* ================================================================ conflict removal and settling only delete pending records *)
+
+Lemma um_get_del : forall l h h', um_get (um_del l h) h' = if (h =? h')%N then None else um_get l h'.
+Proof.
+  intros l h h'. unfold um_get, um_del. induction l as [|e l IH]; cbn [filter find].
+  - destruct (h =? h')%N; reflexivity.
+  - destruct (fst e =? h)%N eqn:E1; cbn [negb find].
+    + apply N.eqb_eq in E1. destruct (fst e =? h')%N eqn:E2.
+      * apply N.eqb_eq in E2. assert (E3 : (h =? h')%N = true) by (apply N.eqb_eq; congruence). rewrite E3 in *. exact IH.
+      * exact IH.
+    + destruct (fst e =? h')%N eqn:E2.
+      * apply N.eqb_eq in E2. assert (E3 : (h =? h')%N = false).
+        { apply N.eqb_neq. intros ->. apply N.eqb_neq in E1. congruence. }
+        rewrite E3. reflexivity.
+      * exact IH.
+Qed.
+
+Lemma uc_get_del : forall l o o', uc_get (uc_del l o) o' = if op_eqb o o' then None else uc_get l o'.
+Proof.
+  intros l o o'. unfold uc_get, uc_del. induction l as [|e l IH]; cbn [filter find].
+  - destruct (op_eqb o o'); reflexivity.
+  - destruct (op_eqb (uc_op e) o) eqn:E1; cbn [negb find].
+    + apply op_eqb_eq in E1. destruct (op_eqb (uc_op e) o') eqn:E2.
+      * apply op_eqb_eq in E2. assert (E3 : op_eqb o o' = true) by (apply op_eqb_eq; congruence). rewrite E3 in *. exact IH.
+      * exact IH.
+    + destruct (op_eqb (uc_op e) o') eqn:E2.
+      * apply op_eqb_eq in E2. assert (E3 : op_eqb o o' = false).
+        { destruct (op_eqb o o') eqn:E4; [|reflexivity]. apply op_eqb_eq in E4.
+          assert (op_eqb (uc_op e) o = true) by (apply op_eqb_eq; congruence). congruence. }
+        rewrite E3. reflexivity.
+      * exact IH.
+Qed.
+
+Definition shrinks (s0 s' : pstate) : Prop :=
+  (forall h v, um_get (ps_unmined s') h = Some v -> um_get (ps_unmined s0) h = Some v) /\
+  (forall o c, uc_get (ps_ucredits s') o = Some c -> uc_get (ps_ucredits s0) o = Some c) /\
+  (forall o sp, In sp (ui_get (ps_uinputs s') o) -> In sp (ui_get (ps_uinputs s0) o)).
+
+Lemma shrinks_refl : forall s, shrinks s s.
+Proof. intros s. repeat split; auto. Qed.
+
+Lemma shrinks_trans : forall a b c, shrinks a b -> shrinks b c -> shrinks a c.
+Proof.
+  intros a b c (A1 & A2 & A3) (B1 & B2 & B3). repeat split; intros.
+  - apply A1. apply B1. assumption.
+  - apply A2. apply B2. assumption.
+  - apply A3. apply B3. assumption.
+Qed.
+
+Lemma del_inputs_sub : forall t l o sp, In sp (ui_get (del_inputs_of l t) o) -> In sp (ui_get l o).
+Proof.
+  intros t. unfold del_inputs_of. generalize (t_ins t). intros ins. induction ins as [|k ins IH]; intros l o sp H; cbn [fold_left] in H; [exact H|].
+  apply IH in H. rewrite ui_get_del in H. destruct (op_eqb k o); [destruct H|exact H].
+Qed.
+
+Lemma remove_conflict_shrinks :
+  forall fuel own s0 s h t, shrinks s0 s -> okp (shrinks s0) (remove_conflict fuel own s h t).
+Proof.
+  induction fuel as [|f IH]; intros own s0 s h t Hs; [exact I|].
+  cbn [remove_conflict].
+  match goal with |- okp _ (match fold_left ?po _ _ with _ => _ end) => set (per_out := po) end.
+  assert (Hfold : forall idx acc, okp (shrinks s0) acc -> okp (shrinks s0) (fold_left per_out idx acc)).
+  { induction idx as [|i idx IHi]; intros acc Hacc; cbn [fold_left]; [exact Hacc|].
+    apply IHi. destruct acc as [s1|e]; [|exact I]. unfold per_out.
+    match goal with |- okp _ (match ?F with _ => _ end) => assert (Hin : okp (shrinks s0) F) end.
+    { apply (fold_spenders_pres (shrinks s0) (fun s2 sp st => remove_conflict f own s2 sp st)).
+      - intros s2 sp st H2. apply IH. exact H2.
+      - exact Hacc. }
+    match goal with |- okp _ (match ?F with _ => _ end) => destruct F as [s3|e] end; [|exact I].
+    cbn [okp] in *. destruct Hin as (A & B & C). repeat split; auto.
+    intros o c Hc. cbn [ps_unmined ps_uinputs ps_ucredits set_unmined set_ugame set_uinputs set_ucredits set_game set_w set_blocks] in Hc. rewrite uc_get_del in Hc. destruct (op_eqb (h, i) o); [discriminate|]. apply B. exact Hc. }
+  specialize (Hfold (out_indexes t) (POk s) Hs).
+  destruct (fold_left per_out (out_indexes t) (POk s)) as [s4|e]; [|exact I].
+  cbn [okp] in *. destruct Hfold as (A & B & C). repeat split.
+  - intros h' v Hv. cbn [ps_unmined ps_uinputs ps_ucredits set_unmined set_ugame set_uinputs set_ucredits set_game set_w set_blocks] in Hv. rewrite um_get_del in Hv. destruct (h =? h')%N; [discriminate|]. apply A. exact Hv.
+  - intros o c Hc. cbn [ps_unmined ps_uinputs ps_ucredits set_unmined set_ugame set_uinputs set_ucredits set_game set_w set_blocks] in Hc. apply B. exact Hc.
+  - intros o sp Hsp. cbn [ps_unmined ps_uinputs ps_ucredits set_unmined set_ugame set_uinputs set_ucredits set_game set_w set_blocks] in Hsp. apply C. eapply del_inputs_sub. exact Hsp.
+Qed.
+
+Lemma remove_spenders_shrinks :
+  forall own s0 s k, shrinks s0 s -> okp (shrinks s0) (remove_spenders own s k).
+Proof.
+  intros own s0 s k Hs. unfold remove_spenders.
+  apply (fold_spenders_pres (shrinks s0) (fun s2 sp st => remove_conflict (conflict_fuel s2) own s2 sp st)).
+  - intros s2 sp st H2. apply remove_conflict_shrinks. exact H2.
+  - exact Hs.
+Qed.
+
+Lemma remove_double_spends_shrinks :
+  forall own s0 s r, shrinks s0 s -> okp (shrinks s0) (remove_double_spends own s r).
+Proof.
+  intros own s0 s r Hs. unfold remove_double_spends.
+  assert (H : forall ins acc, okp (shrinks s0) acc ->
+            okp (shrinks s0) (fold_left (fun (acc : pres pstate) (ri : rel_in) =>
+                                 match acc with PErr e => PErr e | POk s1 => remove_spenders own s1 (ri_prev ri) end) ins acc)).
+  { induction ins as [|ri ins IH]; intros acc Hacc; cbn [fold_left]; [exact Hacc|].
+    apply IH. destruct acc as [s1|e]; [|exact I]. apply remove_spenders_shrinks. exact Hacc. }
+  specialize (H (rr_ins r) (POk s) Hs).
+  destruct (fold_left _ (rr_ins r) (POk s)) as [s2|e]; [|exact I].
+  cbn [okp] in *. destruct H as (A & B & C). repeat split; auto.
+  intros o sp Hsp. cbn [ps_unmined ps_uinputs ps_ucredits set_unmined set_ugame set_uinputs set_ucredits set_game set_w set_blocks] in Hsp. apply C. eapply del_inputs_sub. exact Hsp.
+Qed.
+
+Lemma purge_coinbase_shrinks :
+  forall own ops s0 s, shrinks s0 s -> okp (shrinks s0) (purge_coinbase own s ops).
+Proof.
+  intros own ops s0 s Hs. unfold purge_coinbase.
+  assert (Hacc0 : okp (shrinks s0) (POk s)) by exact Hs. revert Hacc0.
+  generalize (POk s). induction ops as [|o ops IH]; intros acc Hacc; cbn [fold_left]; [exact Hacc|].
+  apply IH. destruct acc as [s1|e]; [|exact I]. apply remove_spenders_shrinks. exact Hacc.
+Qed.
+
+(* after removeConflict the transaction is gone from the unmined bucket, none of its inputs is
+   registered any more and it has no unmined credit left *)
+Theorem remove_conflict_removes :
+  forall fuel own s h t s', remove_conflict fuel own s h t = POk s' ->
+    um_get (ps_unmined s') h = None /\
+    (forall o, In o (t_ins t) -> ui_get (ps_uinputs s') o = []) /\
+    (forall i, In i (out_indexes t) -> uc_get (ps_ucredits s') (h, i) = None).
+Proof.
+  intros fuel own s h t s' H. destruct fuel as [|f]; [discriminate|]. cbn [remove_conflict] in H.
+  match type of H with (match fold_left ?po _ _ with _ => _ end) = _ => set (per_out := po) in * end.
+  (* unmined credits of the outputs processed so far are gone and stay gone *)
+  assert (Hfold : forall idx acc s4, fold_left per_out idx acc = POk s4 ->
+            forall done_, (forall s1, acc = POk s1 -> forall i, In i done_ -> uc_get (ps_ucredits s1) (h, i) = None) ->
+            forall i, In i (done_ ++ idx) -> uc_get (ps_ucredits s4) (h, i) = None).
+  { induction idx as [|j idx IHi]; intros acc s4 Hf done_ Hd i Hi; cbn [fold_left] in Hf.
+    - rewrite app_nil_r in Hi. exact (Hd s4 Hf i Hi).
+    - apply (IHi (per_out acc j) s4 Hf (done_ ++ [j])); [|rewrite <- app_assoc; exact Hi].
+      intros s1' E i0 Hi0. destruct acc as [s1|e]; [|discriminate]. unfold per_out in E.
+      match type of E with (match ?F with _ => _ end) = _ => destruct F as [s3|e] eqn:EF end; [|discriminate].
+      inversion E; subst s1'. cbn [ps_unmined ps_uinputs ps_ucredits set_unmined set_ugame set_uinputs set_ucredits set_game set_w set_blocks]. rewrite uc_get_del.
+      destruct (op_eqb (h, j) (h, i0)) eqn:Eq; [reflexivity|].
+      apply in_app_or in Hi0. destruct Hi0 as [Hi0|[<-|[]]]; [|rewrite op_eqb_refl in Eq; discriminate].
+      pose proof (fold_spenders_pres (shrinks s1) (fun s2 sp st => remove_conflict f own s2 sp st)
+                    (fun s2 sp st H2 => remove_conflict_shrinks f own s1 s2 sp st H2)
+                    (ui_get (ps_uinputs s1) (h, j)) (POk s1) (shrinks_refl s1)) as Sh.
+      cbv beta in Sh. rewrite EF in Sh. cbn [okp] in Sh. destruct Sh as (_ & B & _).
+      destruct (uc_get (ps_ucredits s3) (h, i0)) as [c|] eqn:Ec; [|reflexivity].
+      apply B in Ec. rewrite (Hd s1 eq_refl i0 Hi0) in Ec. discriminate. }
+  destruct (fold_left per_out (out_indexes t) (POk s)) as [s4|e] eqn:E4; [|discriminate].
+  inversion H; subst s'. cbn [ps_unmined ps_uinputs ps_ucredits set_unmined set_ugame set_uinputs set_ucredits set_game set_w set_blocks]. split; [|split].
+  - rewrite um_get_del, N.eqb_refl. reflexivity.
+  - intros o Ho. unfold del_inputs_of.
+    assert (G : forall ins l, In o ins -> ui_get (fold_left (fun acc k => ui_del acc k) ins l) o = []).
+    { induction ins as [|k ins IH]; intros l Hin; [destruct Hin|]. cbn [fold_left].
+      destruct Hin as [->|Hin]; [|apply IH; exact Hin].
+      destruct (ui_get (fold_left (fun acc k => ui_del acc k) ins (ui_del l o)) o) as [|x xs] eqn:Ex; [reflexivity|].
+      assert (Hx : In x (ui_get (fold_left (fun acc k => ui_del acc k) ins (ui_del l o)) o)) by (rewrite Ex; left; reflexivity).
+      pose proof (del_inputs_sub {| t_id := 0%N; t_cb := false; t_ins := ins; t_outs := [] |} (ui_del l o) o x) as D.
+      unfold del_inputs_of in D. cbn in D. specialize (D Hx). rewrite ui_get_del, op_eqb_refl in D. destruct D. }
+    apply G. exact Ho.
+  - intros i Hi. apply (Hfold (out_indexes t) (POk s) s4 E4 []); [intros s1 _ i0 []|exact Hi].
+Qed.
+
+(* ================================================================ the mined side evolves independently of the pending side *)
+
+Record mstate := { m_w : wstate; m_blocks : list brec; m_game : list grow }.
+Definition mined (s : pstate) : mstate := {| m_w := ps_w s; m_blocks := ps_blocks s; m_game := ps_game s |}.
+
+Definition add_game_rows (g : list grow) (tid : N) (h : Z) (outs : list rel_out) : list grow :=
+  fold_left (fun acc ro => match game_kind (o_class (ro_out ro)) with
+                           | Some b => g_put acc (mk_grow (ro_wallet ro) b false tid h (ro_index ro))
+                           | None => acc
+                           end) outs g.
+
+(* AddRelevantTx restricted to credits, block records and mined deposit rows *)
+Definition m_apply_rec (p : params) (h : Z) (bid : N) (m : mstate) (r : relrec) : option mstate :=
+  match withdraw_ins (credits (m_w m)) (m_game m) (rr_tx r) h (rr_ins r) with
+  | PErr _ => None
+  | POk (cs1, g1) =>
+      match apply_outs p cs1 (rr_tx r) h bid (rr_outs r) with
+      | Err _ => None
+      | Ok cs2 => Some {| m_w := {| credits := cs2; synced := synced (m_w m) |};
+                          m_blocks := br_add (m_blocks m) h bid (rr_tx r);
+                          m_game := add_game_rows g1 (t_id (rr_tx r)) h (rr_outs r) |}
+      end
+  end.
+
+Fixpoint m_apply_recs (p : params) (h : Z) (bid : N) (m : mstate) (recs : list relrec) : option mstate :=
+  match recs with
+  | [] => Some m
+  | r :: rest => match m_apply_rec p h bid m r with None => None | Some m' => m_apply_recs p h bid m' rest end
+  end.
+
+Definition m_connect_block (p : params) (own : owner_fn) (n : node) (m : mstate) (b : block) : option (mstate * list N) :=
+  match filter_block_txs own (credits (m_w m)) (node_tx n) [] (b_txs b) with
+  | Err _ => None
+  | Ok recs =>
+      match m_apply_recs p (b_height b) (b_id b) m recs with
+      | None => None
+      | Some m' => Some ({| m_w := {| credits := credits (m_w m'); synced := (b_height b, b_id b) :: synced (m_w m') |};
+                            m_blocks := m_blocks m'; m_game := m_game m' |},
+                         map (fun r => t_id (rr_tx r)) recs)
+      end
+  end.
+
+Lemma add_game_game :
+  forall outs s tid h, ps_game (add_game s tid h outs) = add_game_rows (ps_game s) tid h outs.
+Proof.
+  induction outs as [|ro outs IH]; intros s tid h; [reflexivity|].
+  unfold add_game, add_game_rows in *. cbn [fold_left]. destruct (game_kind (o_class (ro_out ro))).
+  - rewrite IH. reflexivity.
+  - apply IH.
+Qed.
+
+Lemma settle_mined : forall s t, mined (settle s t) = mined s.
+Proof. intros s t. unfold settle. destruct (um_get (ps_unmined s) (t_id t)); reflexivity. Qed.
+
+Lemma p_apply_rec_mined :
+  forall p own h bid s r s', p_apply_rec p own h bid s r = POk s' -> m_apply_rec p h bid (mined s) r = Some (mined s').
+Proof.
+  intros p own h bid s r s' H. unfold p_apply_rec in H. unfold m_apply_rec. cbn [mined m_w m_game m_blocks].
+  set (s0 := set_blocks s (br_add (ps_blocks s) h bid (rr_tx r))) in *.
+  change (credits (ps_w s0)) with (credits (ps_w s)) in H. change (ps_game s0) with (ps_game s) in H.
+  destruct (withdraw_ins (credits (ps_w s)) (ps_game s) (rr_tx r) h (rr_ins r)) as [[cs1 g1]|e]; [|discriminate].
+  set (s1 := settle (set_game (set_credits s0 cs1) g1) (rr_tx r)) in *.
+  pose proof (remove_double_spends_frame own s1 s1 r (same_mined_refl s1)) as Fr.
+  destruct (remove_double_spends own s1 r) as [s2|e]; [|discriminate]. cbn [okp] in Fr. destruct Fr as (Fw & Fb & Fg).
+  assert (M1 : mined s1 = mined (set_game (set_credits s0 cs1) g1)) by apply settle_mined.
+  assert (Ew : ps_w s2 = {| credits := cs1; synced := synced (ps_w s) |}).
+  { rewrite Fw. change (ps_w s1) with (m_w (mined s1)). rewrite M1. reflexivity. }
+  rewrite Ew in H. cbn [credits] in H.
+  destruct (apply_outs p cs1 (rr_tx r) h bid (rr_outs r)) as [cs2|e]; [|discriminate].
+  inversion H; subst s'. unfold mined.
+  destruct (add_game_frame (rr_outs r) (set_credits s2 cs2) (t_id (rr_tx r)) h) as (_ & B & _ & D & _).
+  rewrite B, D, add_game_game. cbn [set_credits set_w ps_w ps_blocks ps_game].
+  rewrite Ew, Fb, Fg. cbn [synced].
+  change (ps_blocks s1) with (m_blocks (mined s1)). change (ps_game s1) with (m_game (mined s1)). rewrite M1. reflexivity.
+Qed.
+
+Lemma p_apply_recs_mined :
+  forall p own h bid recs s s', p_apply_recs p own h bid s recs = POk s' -> m_apply_recs p h bid (mined s) recs = Some (mined s').
+Proof.
+  intros p own h bid recs. induction recs as [|r recs IH]; intros s s' H; cbn in H |- *.
+  - inversion H. reflexivity.
+  - destruct (p_apply_rec p own h bid s r) as [s1|e] eqn:E; [|discriminate].
+    rewrite (p_apply_rec_mined _ _ _ _ _ _ _ E). apply IH. exact H.
+Qed.
+
+(* ---- the relevant records do not depend on the pending set when the node knows the previous transactions *)
+
+Lemma filter_ins_ext :
+  forall own view inblk lk1 lk2 ins i,
+    (forall o, In o ins -> lk1 (fst o) = lk2 (fst o)) ->
+    filter_ins own view inblk lk1 ins i = filter_ins own view inblk lk2 ins i.
+Proof.
+  intros own view inblk lk1 lk2 ins. induction ins as [|[ph pv] rest IH]; intros i H; [reflexivity|].
+  cbn [filter_ins]. rewrite (IH (i + 1)%N) by (intros o Ho; apply H; right; exact Ho).
+  pose proof (H (ph, pv) (or_introl eq_refl)) as E. cbn [fst] in E. rewrite E. reflexivity.
+Qed.
+
+Definition node_knows (n : node) (b : block) : Prop :=
+  forall t o, In t (b_txs b) -> In o (t_ins t) -> node_tx n (fst o) <> None.
+
+Lemma filter_block_txs_ext :
+  forall own view lk1 lk2 txs seen,
+    (forall t o, In t txs -> In o (t_ins t) -> lk1 (fst o) = lk2 (fst o)) ->
+    filter_block_txs own view lk1 seen txs = filter_block_txs own view lk2 seen txs.
+Proof.
+  intros own view lk1 lk2 txs. induction txs as [|t txs IH]; intros seen H; [reflexivity|].
+  cbn [filter_block_txs]. rewrite (IH (seen ++ [t])) by (intros t0 o H0 Ho; eapply H; [right; exact H0|exact Ho]).
+  unfold filter_tx. rewrite (filter_ins_ext own view (seen ++ [t]) lk1 lk2 (t_ins t) 0%N) by (intros o Ho; eapply H; [left; reflexivity|exact Ho]).
+  reflexivity.
+Qed.
+
+Lemma lookup_pending_known : forall n cum h, node_tx n h <> None -> lookup_pending n cum h = node_tx n h.
+Proof. intros n cum h H. unfold lookup_pending. destruct (node_tx n h); [reflexivity|contradiction]. Qed.
+
+Theorem p_connect_block_mined :
+  forall p own n cum s b s' ids, node_knows n b ->
+    p_connect_block p own n cum s b = POk (s', ids) ->
+    m_connect_block p own n (mined s) b = Some (mined s', ids).
+Proof.
+  intros p own n cum s b s' ids Hk H. unfold p_connect_block in H. unfold m_connect_block. cbn [mined m_w].
+  rewrite (filter_block_txs_ext own (credits (ps_w s)) (lookup_pending n cum) (node_tx n) (b_txs b) []) in H
+    by (intros t o Ht Ho; apply lookup_pending_known; eapply Hk; eauto).
+  destruct (filter_block_txs own (credits (ps_w s)) (node_tx n) [] (b_txs b)) as [recs|e]; [|discriminate].
+  destruct (p_apply_recs p own (b_height b) (b_id b) s recs) as [s1|e] eqn:E; [|discriminate].
+  rewrite (p_apply_recs_mined _ _ _ _ _ _ _ E). inversion H; subst. reflexivity.
+Qed.
+
+(* the ledger part of the mined side is exactly C01's connect_block (Model.v) *)
+Lemma withdraw_ins_apply_ins :
+  forall ins cs g t h cs' g', withdraw_ins cs g t h ins = POk (cs', g') -> apply_ins cs t h ins = Ok cs'.
+Proof.
+  induction ins as [|ri ins IH]; intros cs g t h cs' g' H; cbn in H |- *.
+  - inversion H. reflexivity.
+  - destruct (find_unspent cs (ri_wallet ri) (ri_prev ri)) as [c|]; [|discriminate].
+    destruct (spend_credit cs (ri_wallet ri) (ri_prev ri) (t_id t, ri_index ri, h)) as [cs1|]; [|discriminate].
+    destruct (game_kind (c_class c)).
+    + destruct (g_mem _ g); [|discriminate]. eapply IH; eauto.
+    + eapply IH; eauto.
+Qed.
+
+Lemma m_apply_recs_ledger :
+  forall p h bid recs m m', m_apply_recs p h bid m recs = Some m' ->
+    apply_recs p (credits (m_w m)) h bid recs = Ok (credits (m_w m')) /\ synced (m_w m') = synced (m_w m).
+Proof.
+  intros p h bid recs. induction recs as [|r recs IH]; intros m m' H; cbn in H |- *.
+  - inversion H. split; reflexivity.
+  - unfold m_apply_rec in H.
+    destruct (withdraw_ins (credits (m_w m)) (m_game m) (rr_tx r) h (rr_ins r)) as [[cs1 g1]|e] eqn:E1; [|discriminate].
+    rewrite (withdraw_ins_apply_ins _ _ _ _ _ _ _ E1).
+    destruct (apply_outs p cs1 (rr_tx r) h bid (rr_outs r)) as [cs2|e]; [|discriminate].
+    destruct (IH _ _ H) as [A B]. cbn in A, B. split; assumption.
+Qed.
+
+Theorem m_connect_block_is_model :
+  forall p own n m b m' ids, m_connect_block p own n m b = Some (m', ids) ->
+    connect_block p true own (credits (m_w m)) (node_tx n) (m_w m) b = Ok (m_w m').
+Proof.
+  intros p own n m b m' ids H. unfold m_connect_block in H. unfold connect_block.
+  destruct (filter_block_txs own (credits (m_w m)) (node_tx n) [] (b_txs b)) as [recs|e]; [|discriminate].
+  destruct (m_apply_recs p (b_height b) (b_id b) m recs) as [m1|] eqn:E; [|discriminate].
+  destruct (m_apply_recs_ledger _ _ _ _ _ _ E) as [A B]. rewrite A. inversion H; subst. cbn. rewrite B. reflexivity.
+Qed.
+
+(* ================================================================ settling *)
+
+Lemma settle_shrinks : forall s t, shrinks s (settle s t).
+Proof.
+  intros s t. unfold settle. destruct (um_get (ps_unmined s) (t_id t)); [|apply shrinks_refl].
+  repeat split.
+  - intros h v Hv. cbn [ps_unmined set_unmined set_ucredits] in Hv. rewrite um_get_del in Hv. destruct (t_id t =? h)%N; [discriminate|exact Hv].
+  - intros o c Hc. cbn [ps_ucredits set_unmined set_ucredits] in Hc. revert Hc. generalize (ps_ucredits s). generalize (out_indexes t).
+    induction l as [|i l IH]; intros ucs Hc; cbn [fold_left] in Hc; [exact Hc|].
+    apply IH in Hc. rewrite uc_get_del in Hc. destruct (op_eqb (t_id t, i) o); [discriminate|exact Hc].
+  - intros o sp Hsp. exact Hsp.
+Qed.
+
+Lemma fold_uc_del_none :
+  forall (tid : N) l ucs o, uc_get ucs o = None ->
+    uc_get (fold_left (fun acc i => uc_del acc (tid, i)) l ucs) o = None.
+Proof.
+  intros tid l. induction l as [|k l IH]; intros ucs o H; cbn [fold_left]; [exact H|].
+  apply IH. rewrite uc_get_del. destruct (op_eqb (tid, k) o); [reflexivity|exact H].
+Qed.
+
+Lemma fold_uc_del_in :
+  forall (tid : N) l ucs i, In i l ->
+    uc_get (fold_left (fun acc i => uc_del acc (tid, i)) l ucs) (tid, i) = None.
+Proof.
+  intros tid l. induction l as [|k l IH]; intros ucs i Hi; [destruct Hi|]. cbn [fold_left].
+  destruct Hi as [->|Hi]; [|apply IH; exact Hi].
+  apply fold_uc_del_none. rewrite uc_get_del, op_eqb_refl. reflexivity.
+Qed.
+
+Lemma settle_settled : forall s t,
+  um_get (ps_unmined s) (t_id t) <> None ->
+  um_get (ps_unmined (settle s t)) (t_id t) = None /\
+  forall i, In i (out_indexes t) -> uc_get (ps_ucredits (settle s t)) (t_id t, i) = None.
+Proof.
+  intros s t Hp. unfold settle. destruct (um_get (ps_unmined s) (t_id t)) eqn:E; [|contradiction]. split.
+  - cbn [ps_unmined set_unmined set_ucredits]. rewrite um_get_del, N.eqb_refl. reflexivity.
+  - intros i Hi. cbn [ps_ucredits set_unmined set_ucredits]. apply fold_uc_del_in. exact Hi.
+Qed.
+
+(* after AddRelevantTx of a mined record the transaction is not pending any more, and the pending side
+   has only lost records *)
+Lemma p_apply_rec_settles :
+  forall p own h bid s r s', p_apply_rec p own h bid s r = POk s' ->
+    shrinks s s' /\ um_get (ps_unmined s') (t_id (rr_tx r)) = None /\
+    (um_get (ps_unmined s) (t_id (rr_tx r)) <> None ->
+     forall i, In i (out_indexes (rr_tx r)) -> uc_get (ps_ucredits s') (t_id (rr_tx r), i) = None).
+Proof.
+  intros p own h bid s r s' H. unfold p_apply_rec in H.
+  set (s0 := set_blocks s (br_add (ps_blocks s) h bid (rr_tx r))) in *.
+  destruct (withdraw_ins (credits (ps_w s0)) (ps_game s0) (rr_tx r) h (rr_ins r)) as [[cs1 g1]|e]; [|discriminate].
+  set (sa := set_game (set_credits s0 cs1) g1) in *.
+  set (s1 := settle sa (rr_tx r)) in *.
+  pose proof (remove_double_spends_shrinks own s1 s1 r (shrinks_refl s1)) as Sh.
+  destruct (remove_double_spends own s1 r) as [s2|e]; [|discriminate]. cbn [okp] in Sh.
+  destruct (apply_outs p (credits (ps_w s2)) (rr_tx r) h bid (rr_outs r)) as [cs2|e]; [|discriminate].
+  inversion H; subst s'.
+  destruct (add_game_frame (rr_outs r) (set_credits s2 cs2) (t_id (rr_tx r)) h) as (A & _ & C & _ & E).
+  assert (S1 : shrinks s s1) by (apply (settle_shrinks sa (rr_tx r))).
+  assert (S2 : shrinks s s2) by (eapply shrinks_trans; eauto).
+  assert (S3 : shrinks s2 (add_game (set_credits s2 cs2) (t_id (rr_tx r)) h (rr_outs r))).
+  { unfold shrinks. rewrite A, C, E. cbn. repeat split; auto. }
+  split; [eapply shrinks_trans; eauto|]. split.
+  - rewrite C. cbn [ps_unmined set_credits set_w].
+    destruct (um_get (ps_unmined s2) (t_id (rr_tx r))) as [v|] eqn:Ev; [|reflexivity].
+    apply (proj1 Sh) in Ev.
+    destruct (um_get (ps_unmined sa) (t_id (rr_tx r))) as [v0|] eqn:E0.
+    + destruct (settle_settled sa (rr_tx r)) as [Z _]; [congruence|]. fold s1 in Z. congruence.
+    + unfold s1, settle in Ev. rewrite E0 in Ev. congruence.
+  - intros Hp i Hi. rewrite E. cbn [ps_ucredits set_credits set_w].
+    destruct (uc_get (ps_ucredits s2) (t_id (rr_tx r), i)) as [c|] eqn:Ec; [|reflexivity].
+    apply (proj1 (proj2 Sh)) in Ec.
+    destruct (settle_settled sa (rr_tx r) Hp) as [_ Z]. fold s1 in Z. rewrite (Z i Hi) in Ec. discriminate.
+Qed.
+
+Lemma p_apply_recs_settles :
+  forall p own h bid recs s s', p_apply_recs p own h bid s recs = POk s' ->
+    shrinks s s' /\ forall r, In r recs -> um_get (ps_unmined s') (t_id (rr_tx r)) = None.
+Proof.
+  intros p own h bid recs. induction recs as [|r recs IH]; intros s s' H; cbn in H.
+  - inversion H; subst. split; [apply shrinks_refl|intros r []].
+  - destruct (p_apply_rec p own h bid s r) as [s1|e] eqn:E; [|discriminate].
+    destruct (p_apply_rec_settles _ _ _ _ _ _ _ E) as (S1 & U1 & _).
+    destruct (IH _ _ H) as [S2 U2]. split; [eapply shrinks_trans; eauto|].
+    intros r0 [<-|H0]; [|apply U2; exact H0].
+    destruct (um_get (ps_unmined s') (t_id (rr_tx r))) as [v|] eqn:Ev; [|reflexivity].
+    apply (proj1 S2) in Ev. congruence.
+Qed.
+
+(* C09, settle once: a transaction that was accepted as pending and is then mined leaves exactly the
+   mined state that mining it without ever having seen it pending leaves (credits, balances, block
+   records, mined deposit rows: the function m_connect_block of the mined side alone, whose ledger part
+   is C01's connect_block), and it is no longer in the pending set *)
+Theorem settle_once :
+  forall p own n s t s1 b sa ida sb idb,
+    node_knows n b ->
+    receive_store p own n s t = POk (Some s1) ->
+    p_connect_block p own n (ps_unmined s1) s1 b = POk (sa, ida) ->
+    p_connect_block p own n (ps_unmined s) s b = POk (sb, idb) ->
+    mined sa = mined sb /\ ida = idb /\
+    m_connect_block p own n (mined s) b = Some (mined sa, ida) /\
+    connect_block p true own (credits (ps_w s)) (node_tx n) (ps_w s) b = Ok (ps_w sa) /\
+    (In (t_id t) ida -> um_get (ps_unmined sa) (t_id t) = None).
+Proof.
+  intros p own n s t s1 b sa ida sb idb Hk Hr Ha Hb.
+  destruct (receive_store_mined _ _ _ _ _ _ Hr) as (Ew & Ebk & Eg).
+  assert (Em : mined s1 = mined s) by (unfold mined; rewrite Ew, Ebk, Eg; reflexivity).
+  pose proof (p_connect_block_mined _ _ _ _ _ _ _ _ Hk Ha) as Ma. rewrite Em in Ma.
+  pose proof (p_connect_block_mined _ _ _ _ _ _ _ _ Hk Hb) as Mb.
+  rewrite Ma in Mb. assert (E1 : mined sa = mined sb) by congruence. assert (E2 : ida = idb) by congruence.
+  split; [exact E1|]. split; [exact E2|]. split; [exact Ma|]. split.
+  - exact (m_connect_block_is_model _ _ _ _ _ _ _ Ma).
+  - intros Hin. unfold p_connect_block in Ha.
+    destruct (filter_block_txs own (credits (ps_w s1)) (lookup_pending n (ps_unmined s1)) [] (b_txs b)) as [recs|e]; [|discriminate].
+    destruct (p_apply_recs p own (b_height b) (b_id b) s1 recs) as [s2|e] eqn:E; [|discriminate].
+    inversion Ha; subst sa ida. cbn [ps_unmined set_w].
+    apply in_map_iff in Hin. destruct Hin as [r [Hr1 Hr2]]. rewrite <- Hr1.
+    exact (proj2 (p_apply_recs_settles _ _ _ _ _ _ _ E) r Hr2).
+Qed.
